@@ -1,5 +1,7 @@
 mod core;
+mod eng_list;
 mod eng_map;
+mod eng_merkle;
 mod eng_mvreg;
 mod eng_orswot;
 mod eng_simple;
@@ -75,6 +77,7 @@ fn vectors(kind: &str, dump: &str, out: &str, known: &Known) {
         match parse_dump_line(&line) {
             Some(v) => match kind {
                 "clocks" => vectors::clocks_line(&v, &mut rep, known),
+                "ident" => vectors::ident_line(&v, &mut rep, known),
                 _ => panic!("unknown vector engine"),
             },
             None => rep.errors.push("unparsable line".into()),
@@ -119,6 +122,9 @@ fn main() {
             match engine.as_str() {
                 "orswot" => replay::<eng_orswot::OrswotEng>(dump, out, &known, opts),
                 "mvreg" => replay::<eng_mvreg::MVRegEng>(dump, out, &known, opts),
+                "merkle" => replay::<eng_merkle::MerkleEng>(dump, out, &known, opts),
+                "list" => replay::<eng_list::ListEng>(dump, out, &known, opts),
+                "glist" => replay::<eng_list::GListEng>(dump, out, &known, opts),
                 "simple" => {
                     let i = flags.iter().position(|f| *f == "--kind").expect("--kind");
                     eng_simple::set_kind(flags[i + 1]);
